@@ -452,6 +452,7 @@ pub fn kernel_basis(rows: Vec<Vec<Scalar>>, ncols: usize) -> Vec<Vec<Scalar>> {
 pub fn c08(opts: &Opts, out: &mut Out) {
     let mut rng = chacha(opts.seed, 8);
     let mut classes = std::collections::BTreeSet::new();
+    let mut ratios: Vec<Scalar> = vec![];
     let configs: Vec<(usize, usize, usize)> = if opts.thorough { vec![(2, 2, 1), (2, 3, 2), (2, 4, 3), (4, 2, 6), (8, 3, 4), (2, 4, 1)] } else { vec![(2, 2, 1), (2, 3, 2), (4, 4, 3), (4, 2, 6)] };
     // both verifying modes: the weights must bind the proofs whichever mode checks the equation
     let configs: Vec<(usize, usize, usize, usize)> = configs.iter().flat_map(|&(n, k, t)| [(n, k, t, 0usize), (n, k, t, 1usize)]).collect();
@@ -530,6 +531,9 @@ pub fn c08(opts: &Opts, out: &mut Out) {
                     }
                     if fj == Scalar::ZERO {
                         continue;
+                    }
+                    if whole && ratios.len() < 64 {
+                        ratios.push(fi * fj.invert());
                     }
                     // run C: offsetting defects computed from the observed factors
                     let mut oc = zero.clone();
@@ -727,6 +731,61 @@ pub fn c08(opts: &Opts, out: &mut Out) {
             out.oracle("C08:cancelling-defects-rejected", !okc, &key, "batch with equal-and-opposite defects along a direction that leaves the weight input unchanged ACCEPTED");
         }
         classes.insert((n, 2, t, mode, 200));
+    }
+    // the space the weights come from: the ratios of two members' factors (read in runs A and B above) go to the runner,
+    // which looks for a representation a/b with small integers (weights drawn from a space of 2^w values give ratios
+    // with |a|, |b| < 2^w; a ratio of uniform field elements has none below about 2^126)
+    if !ratios.is_empty() {
+        out.req("weightratio".to_string(), format!("ratios={}", ratios.iter().map(hs).collect::<Vec<_>>().join(",")));
+    }
+    // how strongly a member is bound into the weights: the appends in the history of the weight generator are compared
+    // over 40 runs that differ in one response scalar of ONE member; the bits that ever change are the bits through
+    // which that member reaches the weights (a cancelling pair can be searched for with about 2^bits hash evaluations)
+    for (k, mode) in [(2usize, 0usize), (3, 1)] {
+        let (n, t) = (2usize, 1usize);
+        let insts: Vec<Inst> = (0..k).map(|i| fmrun::random_inst(n, 1, 1, t, i + 4, mode == 1, &mut rng)).collect();
+        let proofs: Vec<Proof> = insts.iter().map(|i| i.prove(&mut rng).unwrap()).collect();
+        let stmts: Vec<Stmt> = insts.iter().map(|i| i.statement()).collect();
+        let mut min_bits: Option<usize> = None;
+        let mut appends = 0usize;
+        let mut recognised = true;
+        for member in [0usize, k - 1] {
+            let mut hists: Vec<Vec<Vec<u8>>> = vec![];
+            for _ in 0..40 {
+                let ps: Vec<Proof> = (0..k).map(|i| { let mut parts = fmx::parts(&proofs[i]); if i == member { parts.d1[0] += Scalar::random(&mut rng); } parts.to_proof().unwrap() }).collect();
+                let mut ts: Vec<_> = insts.iter().map(|i| i.transcript()).collect();
+                tap::start();
+                let _ = Proof::verify_batch(&mut ts, &stmts, &ps, if mode == 0 { VerifyAction::VerifyOnly } else { VerifyAction::RecoverAndVerify });
+                let recs = tap::take();
+                // the weight generator: an RNG instance with no challenge and no witness key in its history
+                let w = recs.iter().find(|r| matches!(r.ev, tap::Ev::Draw { .. }) && !r.hist.iter().any(|e| matches!(e, tap::Ev::Challenge { .. } | tap::Ev::Rekey { .. })) && r.hist.iter().any(|e| matches!(e, tap::Ev::Finalize { .. })));
+                match w {
+                    Some(r) => hists.push(r.hist.iter().filter_map(|e| match e { tap::Ev::Append { msg, .. } => Some(msg.clone()), _ => None }).collect()),
+                    None => recognised = false,
+                }
+            }
+            if !recognised || hists.is_empty() || hists.iter().any(|h| h.len() != hists[0].len() || h.iter().zip(hists[0].iter()).any(|(a, b)| a.len() != b.len())) {
+                recognised = false;
+                break;
+            }
+            appends = hists[0].len();
+            let mut bits = 0usize;
+            for a in 0..hists[0].len() {
+                for byte in 0..hists[0][a].len() {
+                    let mut acc = 0u8;
+                    for h in &hists {
+                        acc |= h[a][byte] ^ hists[0][a][byte];
+                    }
+                    bits += acc.count_ones() as usize;
+                }
+            }
+            min_bits = Some(min_bits.map_or(bits, |b| b.min(bits)));
+        }
+        let real = match (recognised, min_bits) {
+            (true, Some(b)) => format!("bits={} appends={}", b, appends),
+            _ => "bits=unknown".to_string(),
+        };
+        out.req(format!("weightbind k={} mode={}", k, mode), real);
     }
     // cancellation over MORE than two members. The factors of all members are read in one run (each member's B is
     // moved by a basis element of its own, so the residual's coordinate there is minus that member's factor), for
